@@ -1,4 +1,5 @@
 import PyodaModel.DriverLoop
 import PyodaModel.Intervals
 
-def main : IO Unit := Pyoda.runDriver [Pyoda.Intervals.handle]
+-- `Calendar.handle` serves `cal.wf c` (evaluated hypothesis of the YearMonth theorems of C18)
+def main : IO Unit := Pyoda.runDriver [Pyoda.Intervals.handle, Pyoda.Calendar.handle]
